@@ -12,6 +12,11 @@ def main():
     props = [json.loads(l) for l in open(os.path.join(common.VERIF, "properties.jsonl"))]
     d = os.path.join(common.VERIF, "py", "checks")
     have = sorted(f[:-3] for f in os.listdir(d) if f.startswith("c") and f.endswith(".py") and f[1:-3].isdigit())
+    # only checks that are under version control are registered (work in progress is not claimed)
+    import subprocess
+    tracked = subprocess.run(["git", "-C", common.VERIF, "ls-files", "py/checks"], capture_output=True, text=True).stdout.split()
+    tracked = {os.path.basename(t)[:-3] for t in tracked}
+    have = [h for h in have if h in tracked]
     checks, claimed = [], set()
     for m in have:
         mod = importlib.import_module(f"checks.{m}")
